@@ -8,7 +8,11 @@
 // RoundTripper that parks at an environment point where the explorer chooses the
 // answer (current key set / rotated key set / 500 / invalid JSON / transport
 // error, or abort when the request context is cancelled). Context cancellations
-// are free environment events. WHICH JWKS document a 200 answer carries (extra
+// are environment events offered at every moment of a caller's life — before the
+// call starts, between cache miss and registration, in the select, after the
+// return while its download goroutine runs — reduced to the positions where the
+// code under test can observe them (rules R1/R2 in runIn; reads of ctx.Err() in
+// jwks.go are visible operations through the overlay). WHICH JWKS document a 200 answer carries (extra
 // entry of kind unknown kty / duplicate / encryption key / undecodable known kty /
 // non-object at the first, middle or last position; plain; empty; only unknown
 // kty) is the sequential dimension: see docKinds and docScenarios — one or two
@@ -418,8 +422,12 @@ type callerRec struct {
 	Started   bool
 	Returned  bool
 	Result    string
-	Cancelled bool // cancel fired before it returned
-	cancel    context.CancelFunc
+	Cancelled bool // cancel fired before it returned (possibly before it started)
+	// its context ended after it had returned, while the goroutine of a download it started was still running
+	// (the everyday `defer cancel()`); nothing the oracle says about the caller itself depends on it
+	LateCancelled bool
+	cancel        context.CancelFunc
+	ctx           context.Context
 	// order facts the oracle uses (all part of the state key)
 	FinishedAtStart []int // flights finished when the caller started
 	ReleasedAtRet   []int // flights released when the caller returned
@@ -547,7 +555,7 @@ func (e *execution) envKey() string {
 	var b strings.Builder
 	fmt.Fprintf(&b, "rot=%v fails=%d cancels=%d base=%v|", e.rot, e.fails, e.cancels, e.base)
 	for i, c := range e.callers {
-		fmt.Fprintf(&b, "c%d:%v,%v,%v,%v,%v,%d,%v,%s,%s;", i, c.Started, c.Returned, c.Cancelled, c.FinishedAtStart, c.ReleasedAtRet, c.RotAtRet, c.Waited, c.BaseAtStart, c.Result)
+		fmt.Fprintf(&b, "c%d:%v,%v,%v,%v,%v,%v,%d,%v,%s,%s;", i, c.Started, c.Returned, c.Cancelled, c.LateCancelled, c.FinishedAtStart, c.ReleasedAtRet, c.RotAtRet, c.Waited, c.BaseAtStart, c.Result)
 	}
 	for i, f := range e.flights {
 		fmt.Fprintf(&b, "f%d:%d,%v,%v,%s,%v,%v;", i, f.Owner, f.Entered, f.Released, f.Outcome, f.Keys, f.Finished)
@@ -701,7 +709,7 @@ func runIn(sc scen, ch *engine.Chooser) engine.Result {
 		if sc.Deadline {
 			ctx, cancel = context.WithDeadline(context.WithValue(context.Background(), ctxKey{}, i), t0.Add(time.Duration(i+1)*time.Hour))
 		}
-		c.cancel = cancel
+		c.cancel, c.ctx = cancel, ctx
 		c.G = e.s.Spawn(fmt.Sprintf("c%d", i), i, func() {
 			c.payload, c.err = e.ks.VerifySignature(ctx, jwsCache[fmt.Sprintf("%s/%d", kind, i)])
 		})
@@ -714,6 +722,17 @@ func runIn(sc scen, ch *engine.Chooser) engine.Result {
 	}()
 	last := ""
 	deadlock := false
+	word := "cancel"
+	if sc.Deadline {
+		word = "expire"
+	}
+	// a fused cancellation was fired at the previous step: (caller, observations of cancellation state before the step)
+	type fusedT struct {
+		caller int
+		obs0   int64
+		others bool // (deadline scenarios) the event ended the context of another caller that had not returned as well
+	}
+	var pending *fusedT
 	for n := 0; ; n++ {
 		if !step() {
 			break
@@ -722,6 +741,20 @@ func runIn(sc scen, ch *engine.Chooser) engine.Result {
 			e.problem("C13/termination/livelock", "more than 400 scheduling steps")
 			break
 		}
+		if pending != nil {
+			// (R2 below) the block that ran right after the cancellation did not look at its context and the caller
+			// is not waiting in its select: the cancellation commutes with the block, this execution is the same as the
+			// one that cancels later (explored as an alternative of the uncancelled path) or, if the caller has returned,
+			// as the uncancelled one judged more strictly
+			c := e.callers[pending.caller]
+			atSelect := c.G.At != nil && c.G.At.Kind == vsync.KSelect
+			if e.s.ObsCount() == pending.obs0 && !atSelect && !pending.others {
+				cuts.Add(1)
+				e.abortAll()
+				return engine.OK("partial-order-reduction", "cut:cancellation-commutes-with-the-callers-next-block")
+			}
+			pending = nil
+		}
 		en := e.s.Enabled()
 		// canonical order: the goroutine that ran last first, the others in order of creation
 		sort.SliceStable(en, func(a, b int) bool { return en[a].G.ID == last && en[b].G.ID != last })
@@ -729,58 +762,142 @@ func runIn(sc scen, ch *engine.Chooser) engine.Result {
 		for _, c := range en {
 			choices = append(choices, engine.E3Choice{Thread: c.G.ID, Label: e.label(c)})
 		}
-		// free environment events: cancel(i) where it can be observed next
-		var cancelIdx []int
-		if e.cancels < sc.MaxCancel {
-			for i, c := range e.callers {
-				if !c.Started || c.Returned || c.Cancelled {
-					continue
-				}
-				obs := c.G.At != nil && c.G.At.Kind == vsync.KSelect
-				for _, f := range e.flights {
-					if f.Owner == i && f.Entered && !f.Released {
-						obs = true
-					}
-				}
-				if obs {
-					cancelIdx = append(cancelIdx, i)
-					if sc.Deadline {
-						choices = append(choices, engine.E3Choice{Thread: "", Label: fmt.Sprintf("expire(c%d)", i)})
-					} else {
-						choices = append(choices, engine.E3Choice{Thread: "", Label: fmt.Sprintf("cancel(c%d)", i)})
-					}
-				}
-			}
-		}
-		if len(choices) == 0 {
+		if len(en) == 0 {
+			// Nothing can run and no answer is outstanding. If goroutines remain they wait for something that will never
+			// come; the only events left are cancellations of the very callers that wait (a caller that only gets out
+			// through its own cancellation or deadline has not been answered), so this is a deadlock whether or not a
+			// cancellation could still be offered.
 			if len(e.s.Unfinished()) > 0 {
 				deadlock = true
 			}
 			break
 		}
+		// Environment events: cancel(i) — with sc.Deadline: expire(i), the clock passes caller i's deadline.
+		//
+		// A cancellation can happen at ANY moment of a caller's life: before the call starts (the request's client has
+		// gone already), between the cache miss and the registration of the download, while the caller waits, after it
+		// has returned (defer cancel()) while the download goroutine it started still runs. What the code under test can
+		// see of it: (1) the select on ctx.Done() — a scheduling point; (2) the transport of a download whose request
+		// context descends from the caller's — an environment point whose "abort" option is enabled by req.Context().Err();
+		// (3) ctx.Err() / context.Cause(ctx) anywhere in jwks.go — wrapped by the rewrite in vsync.Obs, which counts the
+		// read and mixes the observed value into the goroutine's happens-before hash (so the state key tells executions
+		// apart exactly when a goroutine has seen something different; a cancellation itself is in the key through
+		// Cancelled/LateCancelled). cancel(i) is independent of every step that does none of (1)-(3) on ctx_i, and
+		// independent steps commute. Assumption A (also in the evidence): ctx_i is only looked at by caller i and by
+		// goroutines started on its behalf. So every execution with a cancellation is equivalent to one in which the
+		// cancellation stands IMMEDIATELY before a step that can observe it, and only those are generated:
+		//
+		//  R1 caller i is parked in its select, or has returned while a goroutine it started still runs (the download:
+		//     its transport point is covered by this too — the caller of a running download is in one of these two
+		//     situations, or the legacy condition below holds): cancel(i) is a free event, any goroutine may go next
+		//     (whoever looks first sees it; if nobody ever looks, the execution is the uncancelled one with a more
+		//     lenient oracle, harmless).
+		//  R2 caller i is parked BEFORE its select (call not started / at the mutex of keysFromCache / at the mutex of
+		//     keysFromRemote, i.e. between cache miss and registration) and can go: the fused choice "cancel(i)+<step of
+		//     caller i>" — it costs a preemption exactly when the plain step would. After the step: if the block that ran
+		//     read the context (Obs count went up) or ended in the select, the execution goes on (a pre-cancelled caller is
+		//     thus a first-class history: it runs through entry, cache lookup, registration and select with a dead context
+		//     against every schedule of the others); otherwise the cancellation commutes with that block too, the execution
+		//     is equivalent to the one with the cancellation one position later — offered there by R1/R2 — and is cut.
+		//     On the unchanged library no block before the select reads the context (the only read is the ctx.Err() of the
+		//     select's own case), so every R2 execution is cut after one step or merges with the R1 one: that is the
+		//     argument for "already cancelled at the start == cancelled in the select" — made by the run, not by
+		//     reading the code, and re-made for every changed version of the file.
+		//
+		// Not generated: a cancellation of caller i while it is parked before its select AND cannot go (mutex held) — it
+		// commutes with the holder's steps (assumption A) and is offered as soon as the caller can go.
+		type envChoice struct {
+			caller int
+			fused  *vsync.Choice
+		}
+		var envs []envChoice
+		if e.cancels < sc.MaxCancel {
+			for i, c := range e.callers { // R2
+				if c.Returned || c.Cancelled || c.G.At == nil || (c.G.At.Kind != vsync.KStart && c.G.At.Kind != vsync.KLock) {
+					continue
+				}
+				for k := range en {
+					if en[k].G == c.G {
+						choices = append(choices, engine.E3Choice{Thread: c.G.ID, Label: fmt.Sprintf("%s(c%d)+%s", word, i, e.label(en[k]))})
+						envs = append(envs, envChoice{i, &en[k]})
+					}
+				}
+			}
+			for i, c := range e.callers { // R1
+				if c.Cancelled || c.LateCancelled {
+					continue
+				}
+				obs := false
+				if !c.Returned {
+					obs = c.Started && c.G.At != nil && c.G.At.Kind == vsync.KSelect
+					for _, f := range e.flights {
+						if c.Started && f.Owner == i && f.Entered && !f.Released {
+							obs = true
+						}
+					}
+				} else {
+					for _, g := range e.s.Unfinished() {
+						if g.Parent == c.G {
+							obs = true
+						}
+					}
+				}
+				if obs {
+					choices = append(choices, engine.E3Choice{Thread: "", Label: fmt.Sprintf("%s(c%d)", word, i)})
+					envs = append(envs, envChoice{i, nil})
+				}
+			}
+		}
 		pick := ch.Choose(choices, e.s.Key()+"||"+e.envKey())
 		if pick < len(en) {
 			last = en[pick].G.ID
 			e.fire(en[pick])
-		} else {
-			i := cancelIdx[pick-len(en)]
-			e.cancels++
-			e.s.EnvEvent("cancel", i)
-			if sc.Deadline {
-				// the clock passes caller i's deadline: every context with an earlier deadline ends too
-				for j := 0; j <= i; j++ {
-					if !e.callers[j].Returned {
-						e.callers[j].Cancelled = true
-					}
-				}
-				time.Sleep(time.Until(t0.Add(time.Duration(i+1)*time.Hour)) + time.Second)
+			continue
+		}
+		ev := envs[pick-len(en)]
+		e.cancels++
+		e.s.EnvEvent("cancel", ev.caller)
+		ended := func(j int) {
+			cj := e.callers[j]
+			if cj.Returned {
+				cj.LateCancelled = !cj.Cancelled
 			} else {
-				e.callers[i].Cancelled = true
-				e.callers[i].cancel()
+				cj.Cancelled = true
 			}
+			// whoever wakes up on this context's Done channel later got it from this event, wherever the event stood
+			e.s.MarkReady(any(cj.ctx.Done()), "context-ended", j)
+		}
+		others := false
+		if sc.Deadline {
+			// the clock passes caller i's deadline: every context with an earlier deadline ends too (the commutation
+			// argument of R2 is about caller i's next block only, so an execution in which the event reaches another
+			// live caller as well is never cut)
+			for j := 0; j <= ev.caller; j++ {
+				if j != ev.caller && !e.callers[j].Returned && !e.callers[j].Cancelled {
+					others = true
+				}
+				ended(j)
+			}
+			time.Sleep(time.Until(t0.Add(time.Duration(ev.caller+1)*time.Hour)) + time.Second)
+		} else {
+			ended(ev.caller)
+			e.callers[ev.caller].cancel()
+		}
+		if ev.fused != nil {
+			pending = &fusedT{ev.caller, e.s.ObsCount(), others}
+			last = ev.fused.G.ID
+			e.fire(*ev.fused)
 		}
 	}
-	var stuck []string
+	stuck := e.abortAll()
+	if deadlock {
+		e.problem("C13/termination/deadlock", "no enabled event but goroutines remain: "+strings.Join(stuck, ", "))
+	}
+	return e.judge()
+}
+
+// abortAll unwinds the goroutines that are still parked (end of an execution) and says where they were.
+func (e *execution) abortAll() (stuck []string) {
 	if un := e.s.Unfinished(); len(un) > 0 {
 		for _, g := range un {
 			at := "?"
@@ -792,11 +909,11 @@ func runIn(sc scen, ch *engine.Chooser) engine.Result {
 		e.s.Abort()
 		synctest.Wait()
 	}
-	if deadlock {
-		e.problem("C13/termination/deadlock", "no enabled event but goroutines remain: "+strings.Join(stuck, ", "))
-	}
-	return e.judge()
+	return stuck
 }
+
+// cuts counts executions ended by rule R2 of the cancellation alphabet (see runIn).
+var cuts atomic.Int64
 
 func (e *execution) label(c vsync.Choice) string {
 	p := c.G.At
@@ -1393,6 +1510,7 @@ func TestCheck(t *testing.T) {
 	c.Assume("scheduling points are the sync.Mutex acquisitions, go statements and selects of pkg/client/rp/jwks.go (rewritten from the current file on every run); code between two points runs atomically, which is sound for data-race-free code — races are looked for separately by the free-running -race pass",
 		"other sync types, atomics or channels added to that file would not be scheduling points (the rewrite fails loudly on select forms it does not understand)",
 		"state caching merges executions with equal happens-before hashes and equal environment/oracle order facts",
+		"cancellation state is observed by the code under test only through the select on ctx.Done(), the request context seen by the transport, and calls x.Err() / context.Cause(x) written in pkg/client/rp/jwks.go (each wrapped by the rewrite so that the observed value enters the goroutine's happens-before hash); a caller's context is looked at only by that caller and by goroutines started on its behalf (assumption A of the cancellation alphabet)",
 		"go-jose signature verification and net/http's client are trusted; the JWKS endpoint is a RoundTripper under explorer control")
 	scs := scenarios(c)
 	anys := make([]any, len(scs))
@@ -1417,6 +1535,7 @@ func TestCheck(t *testing.T) {
 	}
 	if c.ReplayFile != "" {
 		c.RunE3(engine.E3{Part: "sched", Bound: 1 << 20, Scens: anys, Run: runScen})
+		raceReplay(c)
 		return
 	}
 	for b := 0; b <= maxB; b++ {
@@ -1457,53 +1576,145 @@ func TestCheck(t *testing.T) {
 		os.WriteFile(f, []byte(b.String()), 0o644)
 	}
 	c.Extra("preemption_bound_completed", maxB)
+	c.Extra("cancellation_alphabet", map[string]any{
+		"positions":                       "before the call starts | at the mutex of keysFromCache | at the mutex of keysFromRemote (between cache miss and registration) | in the select | after the caller returned while its download goroutine runs",
+		"max_cancellations_per_execution": 1,
+		"executions_cut_because_the_cancellation_commutes_with_the_callers_next_block_incl_reruns": cuts.Load(),
+	})
 	racePass(c)
 }
 
-// racePass runs the same caller bodies free-running under the race detector
-// (the cooperative scheduler's hand-offs are happens-before edges, so it cannot
-// see races itself). Supplementary detector: a report is a violation, silence is
-// not a proof.
-func racePass(c *engine.Check) {
+// The free-running supplement (checks/c13/race): the same caller bodies on real goroutines
+// and the real sync.Mutex under the race detector (the cooperative scheduler's hand-offs are
+// happens-before edges, so the exploration cannot see races itself). Every iteration runs in a
+// testing/synctest bubble of its own, so the pass also decides — by quiescence, never by a
+// clock — whether every caller returned (see race/race_test.go). A detector: a report is a
+// violation, silence is not a proof.
+
+const raceMarker = "C13-FREE-RUNNING-VERDICT"
+
+// buildRace compiles the race-enabled binary (through the injected change's overlay, if any).
+func buildRace(c *engine.Check) (bin string, cleanup func(), err error) {
 	root := c.Root
-	bin := filepath.Join(root, ".build", "c13race.test")
+	bin = filepath.Join(root, ".build", "c13race.test")
+	cleanup = func() {}
 	args := []string{"test", "-c", "-race", "-vet=off", "-o", bin}
 	if ov := os.Getenv("VERIF_MUTANT_OVERLAY"); ov != "" {
 		args = append(args, "-overlay", ov)
 		// one binary per process: several mutant runs of this check may be in flight at once
 		bin = filepath.Join(root, ".build", fmt.Sprintf("c13race.mut.%d.test", os.Getpid()))
 		args[5] = bin
-		defer os.Remove(bin)
+		cleanup = func() { os.Remove(bin) }
 	}
 	args = append(args, "./checks/c13/race")
 	cmd := exec.Command("go1.26.8", args...)
 	cmd.Dir = filepath.Join(root, "harness")
 	cmd.Env = append(os.Environ(), "CGO_ENABLED=1")
-	if out, err := cmd.CombinedOutput(); err != nil {
-		// no race-enabled toolchain: say so, do not fail the exhaustive part
-		c.Extra("race_pass", "not run: "+strings.TrimSpace(string(out)))
-		return
+	if out, e := cmd.CombinedOutput(); e != nil {
+		return "", cleanup, errors.New(strings.TrimSpace(string(out)))
 	}
-	iters := engine.Pick(c, "200", "2000")
-	// bounded: a change that makes callers wait for ever must not hang the check (the exhaustive part judges
-	// liveness; this pass only looks for race reports)
+	return bin, cleanup, nil
+}
+
+// runRace runs the binary and records what it says under part "race". only >= 0 repeats that one
+// iteration's configuration (replay of a verdict).
+func runRace(c *engine.Check, bin, iters string, only int) {
+	// Callers that wait for ever on a channel or a context are decided inside the binary by quiescence, without any
+	// clock. A goroutine that waits for a sync.Mutex is not durably blocked for synctest: the binary notices that on a
+	// goroutine snapshot and ends at once with "no verdict" (an artefact of the method is possible there, so it is never
+	// a violation of this pass; the exploration reports C13/termination/deadlock). The time limit remains as a backstop
+	// for a livelock only: no verdict either.
 	run := exec.Command(bin, "-test.run", "TestRace", "-test.count", "1", "-test.timeout", engine.Pick(c, "240s", "900s"))
 	run.Env = append(os.Environ(), "C13_RACE_ITERS="+iters)
+	if only >= 0 {
+		run.Env = append(run.Env, fmt.Sprintf("C13_RACE_ONLY=%d", only))
+	}
 	out, err := run.CombinedOutput()
 	s := string(out)
-	c.Extra("race_pass", map[string]any{"iterations": iters, "data_race_reports": strings.Count(s, "WARNING: DATA RACE"), "exit_error": fmt.Sprint(err)})
-	if strings.Contains(s, "WARNING: DATA RACE") {
-		i := strings.Index(s, "WARNING: DATA RACE")
-		j := i + 1500
-		if j > len(s) {
-			j = len(s)
+	var verdicts []map[string]any
+	for _, l := range strings.Split(s, "\n") {
+		if rest, ok := strings.CutPrefix(l, raceMarker+" "); ok {
+			var v map[string]any
+			if json.Unmarshal([]byte(rest), &v) == nil {
+				verdicts = append(verdicts, v)
+			}
 		}
+	}
+	races := strings.Count(s, "WARNING: DATA RACE")
+	info := map[string]any{"iterations": iters, "data_race_reports": races, "exit_error": fmt.Sprint(err),
+		"every_iteration_in_its_own_synctest_bubble": true, "verdict_by": "race detector; quiescence (synctest) for callers that never return; sequential probe after each iteration"}
+	decided := false
+	if races > 0 {
+		i := strings.Index(s, "WARNING: DATA RACE")
+		j := min(i+1500, len(s))
 		c.Record("race", engine.Bad("race-free", "race", "C13/data-race/remoteKeySet", s[i:j]), func() any { return map[string]any{"free_running": true, "iterations": iters} })
-	} else if err != nil && strings.Contains(s, "test timed out") {
-		c.Extra("race_pass_unfinished", "the free-running pass did not finish within its time limit (callers still waiting): no verdict from this pass; liveness is judged by the schedule exploration")
-	} else if err != nil {
-		c.Internal("race pass failed without a race report: " + s)
+		decided = true
+	}
+	for _, v := range verdicts {
+		sig, _ := v["signature"].(string)
+		switch {
+		case sig != "":
+			detail, _ := v["detail"].(string)
+			v["free_running"] = true
+			rule, outcome := "callers-return", "caller-stuck"
+			if !strings.Contains(sig, "liveness") {
+				rule, outcome = "sequential-probe-or-safety", "wrong-answer"
+			}
+			c.Record("race", engine.Bad(rule, outcome, sig, detail), func() any { return v })
+			decided = true
+		case v["no_verdict"] != nil:
+			info["unfinished"] = v["no_verdict"]
+			c.Extra("race_pass_unfinished", v)
+			decided = true
+		case v["completed"] == true:
+			info["quiescence_checks"], info["probes"] = v["quiescence_checks"], v["probes"]
+			if races == 0 && err == nil {
+				c.Record("race", engine.OK("race-free+callers-return+probe", "no-report"), func() any { return map[string]any{"free_running": true, "iterations": iters} })
+				decided = true
+			}
+		}
+	}
+	c.Extra("race_pass", info)
+	switch {
+	case decided:
+	case err != nil && strings.Contains(s, "test timed out"):
+		c.Extra("race_pass_unfinished", "the free-running pass did not finish within its time limit and no caller was found durably blocked (a goroutine blocked on a mutex, or a livelock, is invisible to quiescence): no verdict from this pass; termination is judged by the schedule exploration")
+	default:
+		c.Internal("race pass ended without a verdict: " + s[max(0, len(s)-3000):])
+	}
+}
+
+func racePass(c *engine.Check) {
+	bin, cleanup, err := buildRace(c)
+	defer cleanup()
+	if err != nil {
+		// no race-enabled toolchain: say so, do not fail the exhaustive part
+		c.Extra("race_pass", "not run: "+err.Error())
+		return
+	}
+	runRace(c, bin, engine.Pick(c, "200", "2000"), -1)
+}
+
+// raceReplay re-runs a verdict of the free-running pass: the recorded iteration's configuration, up to 500 times
+// (the interleaving is not under control there; the configuration is).
+func raceReplay(c *engine.Check) {
+	var rp struct {
+		Iteration *int `json:"iteration"`
+	}
+	part, err := c.LoadReplay(&rp)
+	if err != nil || part != "race" {
+		return
+	}
+	bin, cleanup, err := buildRace(c)
+	defer cleanup()
+	if err != nil {
+		c.Internal("replay of the free-running pass: " + err.Error())
+		return
+	}
+	if rp.Iteration != nil {
+		fmt.Printf("REPLAY part=race: iteration %d, up to 500 repetitions\n", *rp.Iteration)
+		runRace(c, bin, "500", *rp.Iteration)
 	} else {
-		c.Record("race", engine.OK("race-free", "no-report"), func() any { return map[string]any{"free_running": true, "iterations": iters} })
+		runRace(c, bin, "2000", -1)
 	}
 }
